@@ -209,6 +209,20 @@ var families = map[string]familyFn{
 			r.recordVM(d, e, o, 1+g.R.Intn(d.Len()))
 		}
 	},
+	// documents past the 64 / 256 thresholds (258-300 children, 66-72 levels, 66-70 attributes) with short expressions about
+	// large positions, large unions, absolute paths from deep inside
+	"scale": func(g *gen.G, r *recorder, maxNodes, maxSteps int) {
+		d := g.ScaleDoc(g.R.Intn(3))
+		for k := 0; k < 6; k++ {
+			e, mode := g.ScaleExpr()
+			o := xast.Opts{Abbrev: g.R.Intn(2) == 0, Space: " "}
+			ctx := 1 + g.R.Intn(d.Len())
+			if g.R.Intn(2) == 0 {
+				ctx = d.Len() // the last node: the deepest one of a chain
+			}
+			r.record(d, e, o, ctx, mode, nil, false, k%2 == 1 || e.T == "call")
+		}
+	},
 	// paths with boolean / positional predicates inside the C02 / C03 fragments
 	"preds": func(g *gen.G, r *recorder, maxNodes, maxSteps int) {
 		d := g.Doc(maxNodes)
